@@ -55,6 +55,9 @@ inductive Kind where
   | internal
   /-- a user-level `_Introduce` (the one every graph gets from the builder is implicit in `PGraph`) -/
   | intro
+  /-- an `_Introduce` (user-level, or the result identities of a graph) that forwards an OPTIONAL-typed value:
+      the Identity it is built into accepts optional types only from `IDENTITY_OPTIONAL_MIN_OPSET` on -/
+  | introOpt
   /-- `_Inline`: the opset imports of the inlined model; whether any of its nodes is in the default domain -/
   | inline (imports : List Req) (hasDefault : Bool)
   /-- any other node class with `op_type = OpType(op, domain, version)`; `op` numbers `Generated.OpsetFacts.opNames` -/
@@ -85,6 +88,8 @@ def PGraph.nodes : PGraph → List PNode | .mk ns => ns
 structure Facts where
   /-- `INTERNAL_MIN_OPSET` -/
   minOpset : Nat
+  /-- `IDENTITY_OPTIONAL_MIN_OPSET` -/
+  optionalMin : Nat
   /-- `SCHEMAS.get(domain, {}).get(version, {}).get(op)` as the `since_version` of the schema found -/
   schemaSince : String → Nat → Nat → Option Nat
 
@@ -92,6 +97,7 @@ structure Facts where
 def kindReq (F : Facts) : Kind → List Req
   | .internal => []
   | .intro => [("", F.minOpset)]
+  | .introOpt => [("", F.optionalMin)]
   | .inline imports _ => imports ++ [("", F.minOpset)]
   | .op d _ v => [(d, v)]
   | .func d v => [(d, v)]
@@ -163,6 +169,7 @@ def adaptBestEffort (F : Facts) (opsets : List Req) : PNode → Decision
         else if src ≠ tgt then .convertInline src tgt else .keepInline
   | .mk .internal _ _ _ _ => .keepInternal
   | .mk .intro _ _ _ _ => .keepInternal
+  | .mk .introOpt _ _ _ _ => .keepInternal
   | .mk (.func _ _) _ _ _ _ => .keepInternal
   | .mk (.op d o v) nProtos concrete subs _ =>
       if nProtos ≠ 1 then .keepProtos
@@ -305,7 +312,8 @@ def genSchemaSince (d : String) (o v : Nat) : Option Nat :=
         if s = 0 then none else some s
 
 def genFacts : Facts :=
-  { minOpset := Generated.OpsetFacts.internalMinOpset, schemaSince := genSchemaSince }
+  { minOpset := Generated.OpsetFacts.internalMinOpset, optionalMin := Generated.OpsetFacts.identityOptionalMin,
+    schemaSince := genSchemaSince }
 
 /-- A node written for since-version `s` of operator `o` is well-formed for the schema in force at
     version `t` of domain `d`. -/
